@@ -313,6 +313,7 @@ func scenVestingPurchaser() []monFailure {
 	s.blockEnd()
 	s.blockStart(5 * time.Second) // accepted
 	before := c.app.BankKeeper.SpendableCoins(c.ctx(), c.addrOf(4)).AmountOf("nund")
+	supplyBefore := c.app.BankKeeper.GetSupply(c.ctx(), "nund").Amount
 	s.blockEnd()
 	if p := s.blockStart(5 * time.Second); p != nil { // completed
 		s.fail("C14", 0, fmt.Sprint("BeginBlock panicked completing an order of a vesting purchaser: ", p))
@@ -320,6 +321,16 @@ func scenVestingPurchaser() []monFailure {
 	}
 	after := c.app.BankKeeper.SpendableCoins(c.ctx(), c.addrOf(4)).AmountOf("nund")
 	po, _ := c.app.EnterpriseKeeper.GetPurchaseOrder(c.ctx(), 1)
+	// the kind of account the purchaser is does not change what is minted and locked for a completed order
+	if po.Status == enttypes.StatusCompleted {
+		grew := c.app.BankKeeper.GetSupply(c.ctx(), "nund").Amount.Sub(supplyBefore)
+		if !grew.Equal(po.Amount.Amount) {
+			s.fail("C02", 0, fmt.Sprintf("completing an order of %s for a vesting-account purchaser raised the supply by %snund", po.Amount, grew))
+		}
+		if l := c.app.EnterpriseKeeper.GetLockedUndAmountForAccount(c.ctx(), c.addrOf(4)).Amount; !l.Equal(po.Amount.Amount) {
+			s.fail("C04", 0, fmt.Sprintf("completing an order of %s for a vesting-account purchaser left it with %snund locked", po.Amount, l))
+		}
+	}
 	if po.Status == enttypes.StatusCompleted && after.GT(before) {
 		s.fail("C05", 1, fmt.Sprintf("completing a 5e14 order raised the vesting purchaser's spendable balance from %s to %s", before, after))
 	}
